@@ -45,18 +45,23 @@ def run(tier, replay=None):
     for basis, n in infix:
         _infix(r, g, np, basis, n)
     first = True
-    for name, n in libs:
-        L, _ = common.gen_library(r, s, name, n)
+    # the same law for a library generated on several ranks (the strings are produced in per-rank blocks and reassembled)
+    libs = [(name, n, 1) for name, n in libs] + ([("core_maths", 4, 3)] if tier == "quick" else [("core_maths", 4, 2), ("core_maths", 4, 5), ("ext_maths", 3, 3)])
+    for name, n, P in libs:
+        if P == 1:
+            L, _ = common.gen_library(r, s, name, n)
+        else:
+            L, _ = common.gen_library(r, scratch.make(), name, n, P=P)
         if L is None:
             continue
-        ev, failed, det, _ = common.judge_library(r, L, "%s_n%d" % (name, n), common.C02_CLAUSES, c03=False)
+        ev, failed, det, _ = common.judge_library(r, L, "%s_n%d%s" % (name, n, "" if P == 1 else "_P%d" % P), common.C02_CLAUSES, c03=False)
         lines = [e for e in ev if e["kind"] == "line"]
         decided = sum(1 for e in lines if e["clsTree"] >= 0)
         for i, cl in sorted(failed.items())[:10]:
             e = ev[i]
-            key = "%s:n%d:line%s" % (name, n, e.get("i", "hdr"))
+            key = "%s:n%d:%sline%s" % (name, n, "" if P == 1 else "P%d:" % P, e.get("i", "hdr"))
             r.violation(key, "Library.tla clauses %s violated: %s" % (cl, det[i]), {"runname": name, "n": n, "event": e})
-        r.add("library", evaluations=len(lines), nontrivial=decided, traces=1, **{"%s_n%d" % (name, n): [len(lines), decided]})
+        r.add("library", evaluations=len(lines), nontrivial=decided, traces=1, **{"%s_n%d%s" % (name, n, "" if P == 1 else "_P%d" % P): [len(lines), decided]})
         if first and lines:
             r.sample({"library": name, "n": n, "event": lines[min(7, len(lines) - 1)]})
             if tier == "thorough" or n == 4:
